@@ -272,6 +272,19 @@ def run(report, p):
                 a0 = call.args[0] if call.args else None
                 r7.check(a0 is not None and all(o[0] == "elem" and is_call(o[1], "os.walk") for o in pr.origins(a0, df)) or (a0 is not None and any(o[0] == "elem" for o in pr.origins(a0, df))), df, call, "the nested history is not loaded from the directory that contains the ascmhl folder")
 
+    # ... and the loader runs the discovery on every path that returns a history (no option, flag or early return can switch it off:
+    # nested chains are only ever verified as a side effect of loading the children)
+    gl5 = cfg_of(loader)
+    dq = {df.qual for df in disc}
+    dnodes = {gl5.node_for(c).id for c, tg in p.calls[loader.qual] if any(t in dq for t in tg)}
+    rets = [gl5.node_for(n) for n in walk_no_nested(loader.node) if isinstance(n, ast.Return)]
+    r7.instance(loader, loader.node, "loader -> discovery on every returning path")
+    if not dnodes:
+        r7.check(False, loader, loader.node, "the loader does not call the child-history discovery at all: nested histories are never loaded, hence never verified", construct="loader without discovery")
+    for rn in rets:
+        path = gl5.find_path(gl5.entry, {rn.id}, avoid=dnodes)
+        r7.check(path is None, loader, rn.ast, "the loader can return a history without having searched (and thereby verified) its nested histories: " + (f"path {gl5.fmt_path(path)[:200]}" if path else ""), witness=gl5.fmt_path(path) if path else None, construct="loader returns without child discovery")
+
     # ------------------------------------------------------------------ R5.4 load before act
     r4 = report.rule(
         "R5.4",
@@ -386,6 +399,7 @@ def run(report, p):
     r8.instance(None, None, f"{nmod} other modification site(s) of MHLChain.generations")
 
     # ---- rules shared with other properties (same mechanism, same rule, reported under every property it can break)
+    include_rules(report, p, 'c03', ['R3.11'], "the loader's and the commands' verdicts are reported through the logger on the way to the exit code")
     include_rules(report, p, 'c01', ['R1.1', 'R1.4'], 'manifest tampering is detected by the c4 digest of the complete manifest file')
     report.not_decided += ["that every byte edit changes the c4 digest (trusted)", "behaviour on chain files not produced by the tool", "concrete exit codes observed at run time"]
 
